@@ -37,13 +37,14 @@
   Classification of the model errors (what the C++ does at that point):
     input error  `Lexer.Err.input`; every `Player.PErr` raised through `Basic_Player::error`;
                  `OptResult.validated = false` (the `Song_Validator` inside `optimize` threw);
-                 `Opt.OErr.missingTrack` (after fix 0e6e685 a drum routine that does not exist is an
-                 `InputError`; a missing JUMP target cannot reach the optimiser, the validator
-                 rejects it first); `FErr.data`, `FErr.writer` (except its fuel), `FErr.indexRange`,
+                 `Opt.OErr.missingDrum` (after fix 0e6e685 a drum routine that does not exist is an
+                 `InputError`); `FErr.data`, `FErr.writer` (except its fuel), `FErr.indexRange`,
                  `FErr.seqTooLarge`
     foreign      `Lexer.Err.foreign` (another exception type or an undefined-behaviour site of the
                  reader), `PErr.impossible` (`vector::at`), `PErr.fuel`/`OErr.fuel`/`WErr.fuel`
-                 (a loop that does not end), `OErr.stackListOOB`, `FErr.codec` (`at()` on an empty
+                 (a loop that does not end), `OErr.stackListOOB`, `OErr.missingTrack`
+                 (`std::out_of_range` from `Song::get_track`; unreachable after validation:
+                 `optimizeStage_routed`), `FErr.codec` (`at()` on an empty
                  stream, `top()` of an empty stack), `FErr.headerWrap`, `FErr.bankIndex`, `FErr.riff`
 
   Not modelled here and named in the evidence: the file system (the MML text and the side files
@@ -181,7 +182,7 @@ def optimizeStage (song : Song) (fuel passes : Nat) : Out Song :=
       | .ok _ => .foreign "MODEL:validator-disagrees"
       | .inputError m => .inputError m
       | .foreign k => .foreign k
-  | .error .missingTrack => .inputError "drum mode error: track is not defined"
+  | .error .missingTrack => .foreign "out_of_range"     -- `Song::get_track` on a missing track: nothing catches it
   | .error (.missingDrum _) => .inputError "drum mode error: track is not defined"
   | .error .stackListOOB => .foreign "ub:stack-list-oob"
   | .error .fuel => .foreign "hang"
